@@ -66,7 +66,7 @@ theorem ledger_step (cfg : Cfg) (w : World) (st : State) (r : Req) :
   | createFile p =>
     have ⟨h1, h2⟩ := create_keeps_other_slots cfg w st p
     by_cases haw : cfg.allowWrite = true
-    · simp only [ledgerEv, haw, Bool.not_true, Bool.false_eq_true, if_false, handles, h1, h2]
+    · simp only [ledgerEv, mayWrite_create, haw, Bool.not_true, Bool.false_eq_true, if_false, handles, h1, h2]
       split <;> rename_i hw <;> simp [hw] <;> omega
     · have haw' : cfg.allowWrite = false := by simpa using haw
       have : (step cfg w st (.createFile p)).2.1 = st := by simp [step, haw']
